@@ -112,7 +112,8 @@ def tla_scn(scn, sid):
     for g in scn["groups"]:
         groups[g["name"]] = {
             "tb": bool(g["tb"]), "size": int(g["size"]), "tryadd": bool(g["tryadd"]),
-            "procs": int(g["procs"]), "cap": WALL_MIN * max(1, int(g["procs"])), "dry": bool(g.get("dry", False)),
+            "procs": int(g["procs"]), "cap": int(g.get("wall", WALL_MIN)) * max(1, int(g["procs"])),
+            "dry": bool(g.get("dry", False)),
             "opts": expected_opts(g), "run": expected_run(scn, g),
         }
     return {
@@ -128,12 +129,13 @@ def tla_scn(scn, sid):
         "ref": ref_outcome(scn),
         "hooks": {k: bool(scn.get("hooks", {}).get(k, False)) for k in ("setup", "teardown", "nsetup", "nteardown")},
         "dist": bool(scn.get("dist", True)),
+        "firstround": [list(x) for x in scn.get("firstround", [])], "hasfirst": "firstround" in scn,
     }
 
 
 def expected_opts(g):
     """What the group's HPC parameters say the #SBATCH directives must be (besides job-name/output/error)."""
-    opts = [["account", "acct"], ["time", f"0:{WALL_MIN}:00"]]
+    opts = [["account", "acct"], ["time", f"0:{int(g.get('wall', WALL_MIN))}:00"]]
     for k in ("partition", "qos", "mem"):
         if g.get(k):
             opts.append([k, g[k]])
@@ -172,7 +174,7 @@ def write_config(scn, base):
             hpc = HpcConfig(hpc_type="local", hpc=LocalHpcConfig())
         else:
             kw = {k: g[k] for k in ("partition", "qos", "mem") if g.get(k)}
-            hpc = HpcConfig(hpc_type="slurm", hpc=SlurmConfig(account="acct", walltime=f"0:{WALL_MIN}:00", **kw))
+            hpc = HpcConfig(hpc_type="slurm", hpc=SlurmConfig(account="acct", walltime=f"0:{int(g.get('wall', WALL_MIN))}:00", **kw))
         sp = SubmitterParams(
             hpc_config=hpc, generate_reports=bool(scn.get("reports", False)), resource_monitor_type="none",
             per_node_batch_size=g["size"], time_based_batching=g["tb"], try_add_blocked_jobs=g["tryadd"],
